@@ -206,6 +206,16 @@ def write_evidence(ctx, level, module, new_violations, known_hits):
         json.dump(ev, f, indent=1, sort_keys=True)
         f.write("\n")
     os.replace(tmp, path)
+    if ctx.tier == "thorough" and "VERIF_EVIDENCE_DIR" not in os.environ:
+        # evidence/<id>.json is rewritten by every run; the last thorough run's record is kept beside it for reference
+        tdir = os.path.join(os.path.dirname(EVIDENCE_DIR.rstrip("/")), "evidence-thorough")
+        try:
+            os.makedirs(tdir, exist_ok=True)
+            with open(os.path.join(tdir, "%s.json" % ctx.prop), "w") as f:
+                json.dump(ev, f, indent=1, sort_keys=True)
+                f.write("\n")
+        except OSError:
+            pass
     # validate against the schema when jsonschema is importable (tooling venv); structural self-check otherwise
     try:
         import jsonschema  # noqa
